@@ -109,7 +109,9 @@ func zzC07(nOut int, nCoins int, outKinds int) {
 	if nOut > 0 && outKinds > 1 {
 		base = verifrt.Choice(outKinds, "output-kind")
 	}
-	outputs := make([]*wire.TxOut, nOut)
+	// the caller's slice has spare capacity (as slices built with append do):
+	// whatever the author adds must not land in the caller's backing array
+	outputs := make([]*wire.TxOut, nOut, nOut+2)
 	var wantOut int64
 	for k := range outputs {
 		kind := base
@@ -147,6 +149,8 @@ func zzC07(nOut int, nCoins int, outKinds int) {
 	cs := &ChangeSource{NewScript: func() ([]byte, error) { return changeScript, nil }, ScriptSize: len(changeScript)}
 
 	atx, err := NewUnsignedTransaction(outputs, btcutil.Amount(rate), zzSource(coins), cs)
+	verifrt.Assert(len(outputs) == nOut && outputs[:nOut+2][nOut] == nil && outputs[:nOut+2][nOut+1] == nil,
+		"c07-callers-output-slice-untouched")
 
 	if err != nil {
 		_, isISE := err.(InputSourceError)
